@@ -201,7 +201,8 @@ func echoMsg(t byte, id uint16, n int) []byte {
 
 type thread struct {
 	kind    string
-	tmo     time.Duration
+	req     time.Duration // the timeout argument of the call
+	tmo     time.Duration // the effective timeout (effTimeout(req))
 	callAt  time.Duration
 	retAt   time.Duration
 	ret     string
@@ -292,7 +293,7 @@ func runScenario(scn string) (obs []event, threads map[int]*thread, injs []*inje
 			}
 			k, _ := strconv.Atoi(f[0])
 			ms, _ := strconv.Atoi(f[2])
-			th := &thread{kind: f[1], tmo: time.Duration(ms) * time.Millisecond, done: make(chan struct{})}
+			th := &thread{kind: f[1], req: time.Duration(ms) * time.Millisecond, tmo: effTimeout(time.Duration(ms) * time.Millisecond), done: make(chan struct{})}
 			threads[k] = th
 			if f[1] == "w" {
 				l.mu.Lock()
@@ -308,11 +309,11 @@ func runScenario(scn string) (obs []event, threads map[int]*thread, injs []*inje
 				var err error
 				switch th.kind {
 				case "4", "w":
-					err = session.Ping(packet.Addr{MAC: peerMAC(k), IP: peerIP4(k)}, th.tmo)
+					err = session.Ping(packet.Addr{MAC: peerMAC(k), IP: peerIP4(k)}, th.req)
 				case "6":
-					err = session.Ping6(packet.Addr{MAC: sess.HostMAC, IP: hostLLA}, packet.Addr{MAC: peerMAC(k), IP: peerIP6(k)}, th.tmo)
+					err = session.Ping6(packet.Addr{MAC: sess.HostMAC, IP: hostLLA}, packet.Addr{MAC: peerMAC(k), IP: peerIP6(k)}, th.req)
 				case "b":
-					err = session.Ping(packet.Addr{MAC: peerMAC(k), IP: peerIP6(k)}, th.tmo)
+					err = session.Ping(packet.Addr{MAC: peerMAC(k), IP: peerIP6(k)}, th.req)
 				}
 				r := "e"
 				switch {
@@ -573,8 +574,32 @@ func evalCls(c *core.Ctx, line string) *core.Case {
 		}}
 }
 
+// effTimeout mirrors Model.Ping.effTimeout (the clamp at the head of Ping6 / ping); the two are compared
+// by the ping.eff cases, and the trace oracle holds the implementation to it: a call returns ErrTimeout
+// no earlier than the effective timeout and (hang detector) not much later.
+func effTimeout(d time.Duration) time.Duration {
+	if d <= 0 || d > 10*time.Second {
+		return 2 * time.Second
+	}
+	return d
+}
+
+func evalEff(c *core.Ctx, line string) *core.Case {
+	f := strings.Fields(line)
+	if len(f) != 3 {
+		return nil
+	}
+	ns, err := strconv.ParseInt(f[2], 10, 64)
+	if err != nil {
+		return nil
+	}
+	return &core.Case{Line: line, Impl: strconv.FormatInt(int64(effTimeout(time.Duration(ns))), 10)}
+}
+
 func Eval(c *core.Ctx, line string) *core.Case {
 	switch {
+	case strings.HasPrefix(line, "ping.eff "):
+		return evalEff(c, line)
 	case strings.HasPrefix(line, "ping.trace "):
 		return evalTrace(c, line)
 	case strings.HasPrefix(line, "ping.cls "):
@@ -603,9 +628,18 @@ func genScenario(c *core.Ctx, n int) string {
 			k := next
 			next++
 			kind := kinds[r.Intn(len(kinds))]
-			st = append(st, fmt.Sprintf("p%d:%s:%d", k, kind, 30+10*r.Intn(6)))
+			ms := 30 + 10*r.Intn(6)
+			if (kind == "4" || kind == "6") && r.Intn(60) == 0 { // out-of-range argument: the 2 s default applies
+				ms = []int{0, -1, -2000, 10001, 3600000}[r.Intn(5)]
+			}
+			st = append(st, fmt.Sprintf("p%d:%s:%d", k, kind, ms))
 			if kind == "4" || kind == "6" {
 				live = append(live, k)
+			}
+			if ms < 30 || ms > 80 {
+				if r.Intn(5) > 0 { // mostly answered, else the call lasts the full two seconds
+					st = append(st, fmt.Sprintf("w%d", []int{1, 10, 40}[r.Intn(3)]), fmt.Sprintf("e%d", k))
+				}
 			}
 		case x < 5:
 			st = append(st, fmt.Sprintf("w%d", []int{1, 3, 10, 35, 70}[r.Intn(5)]))
@@ -625,7 +659,7 @@ func genScenario(c *core.Ctx, n int) string {
 
 // Gen is the C19 correspondence run.
 func Gen(c *core.Ctx) {
-	c.Res.Rule = "ping.trace: real-time scenarios of up to 5 concurrent Ping/Ping6 calls (timeouts 30–80 ms, incl. calls whose send fails) with matching / other-family / foreign / duplicate / request / truncated / other-type ICMP injected through Session.Parse before and after the timeout, icmpTable dumped; the observed event log must be accepted by the Lean ping machine and satisfy the Go-side oracle.  ping.cls: ICMP messages (all types, lengths 0..16, id bytes) through Parse with probe waiters registered.  non-trivial = scenario with at least one call / message of at least 8 bytes"
+	c.Res.Rule = "ping.trace: real-time scenarios of up to 5 concurrent Ping/Ping6 calls (timeouts 30–80 ms and arguments outside (0, 10 s] for which the 2 s default applies; incl. calls whose send fails) with matching / other-family / foreign / duplicate / request / truncated / other-type ICMP injected through Session.Parse before and after the timeout, icmpTable dumped; the observed event log must be accepted by the Lean ping machine and satisfy the Go-side oracle.  ping.eff: the effective timeout of the model against the harness's mirror, to which the trace oracle holds the implementation.  ping.cls: ICMP messages (all types, lengths 0..16, id bytes) through Parse with probe waiters registered.  non-trivial = scenario with at least one call / message of at least 8 bytes"
 	for _, l := range c.CorpusLines() {
 		add(c, "corpus", l)
 	}
@@ -660,8 +694,17 @@ func Gen(c *core.Ctx) {
 		"p0:4:60,e0", "p0:6:60,e0", "p0:4:40", "p0:6:40", "p0:4:40,f0", "p0:4:50,q0,m0,u0", "p0:6:50,q0,m0,u0",
 		"p0:4:60,e0,e0", "p0:4:40,w70,e0", "p0:b:50,t", "p0:w:50,t", "p0:4:60,y0", "p0:6:60,y0",
 		"p0:4:60,p1:6:60,p2:4:60,e1,e0,f2", "p0:4:60,p1:4:60,E0,E1,E0", "p0:b:40,p1:4:40,e0,e1",
+		// timeout argument outside (0, 10 s]: the default of two seconds applies
+		"p0:4:0,w40,e0", "p0:6:0,w40,e0", "p0:4:-7,w40,e0", "p0:6:-7,w40,e0", "p0:4:10001,w40,e0", "p0:6:3600000,w40,e0",
+		"p0:4:0,p1:6:0,p2:4:10001,p3:6:-1,w30,f0,f1", "p0:4:10000,w40,e0", "p0:4:1,w30,e0",
 	} {
 		add(c, "fixed", "ping.trace 0 scn="+s)
+	}
+	for _, ns := range []int64{0, 1, -1, -2e9, 29e6, 2e9, 1e10 - 1, 1e10, 1e10 + 1, 11e9, 36e11, 1 << 62, -(1 << 62)} {
+		add(c, "eff", fmt.Sprintf("ping.eff 4 %d", ns))
+	}
+	for i := 0; i < 200; i++ {
+		add(c, "eff", fmt.Sprintf("ping.eff 6 %d", c.Rnd.Int63n(3e10)-1e10))
 	}
 	n := c.Scale(450, 5000)
 	for i := 0; i < n; i++ {
